@@ -1036,3 +1036,35 @@ def c19_corpus(seed, tier, scheds):
         ops.append({"op": "bg_stop"})
         S.case("interleaving #%d %s|%s%s" % (ci, k1, k2, " same seed" if same_seed else ""), ops)
     return S
+
+
+# ---------------------------------------------------------------- C18
+def c18_corpora(seed, tier):
+    """three fixed corpora (algorithm, API, jitter) replayed identically in every build configuration"""
+    rng = random.Random(seed * 1000003 + 18)
+    alg = Sched()
+    src = c01_corpus(seed, "quick")
+    for i, c in enumerate(src.cases):
+        if "random" in c["label"] or "structured" in c["label"] or i % 6 == 0:
+            alg.case(c["label"], c["ops"], c["weight"])
+    for c in c04_corpus(seed, "quick").cases[:6]:
+        alg.case(c["label"], c["ops"], c["weight"])
+    for kind in ("Hc128Rng", "IsaacRng", "Isaac64Rng"):
+        for c in block_alg_corpus(kind, seed, "quick", 32 if kind == "Hc128Rng" else 256, 600, 18).cases[-7:]:
+            alg.case(c["label"], c["ops"], c["weight"])
+    for c in c09_corpus(seed, "quick").cases:
+        if "seed_from_u64" in c["label"] or c["label"].startswith("Xo") or "XorShift" in c["label"]:
+            alg.case(c["label"], c["ops"], c["weight"])
+    api = Sched()
+    for kind in ALL_SEEDABLE:
+        bb = {"Hc128Rng": 64, "IsaacRng": 1024, "Isaac64Rng": 2048}.get(kind)
+        for r in range(2 if tier == "quick" else 6):
+            api.case("%s mixed calls %d" % (kind, r), api_case_ops(kind, random_walk(rng, 40, WORDBYTES[kind], bb), rng))
+    jit = Sched()
+    for c in c12_corpus(seed, "quick").cases[:30]:
+        jit.case(c["label"], c["ops"], c["weight"])
+    for c in c14_jitter_corpus(seed, "quick").cases:
+        jit.case(c["label"], c["ops"], c["weight"])
+    for c in c13_corpus(seed, "quick", [{"mean": m, "zr": False, "zd": False, "back": 0, "mod": 0, "stuck": 0} for m in (1, 2, 3, 15, 16, 1 << 20, (1 << 31) + 5, 1 << 32)]).cases:
+        jit.case(c["label"], c["ops"], c["weight"])
+    return {"alg": alg, "api": api, "jit": jit}
